@@ -14,7 +14,11 @@ SPEC = {
              "SenderId/ReceiverId/Token blanked; exhaustive matrix: every command type 0..130 x 5 connection identities (listen party, "
              "target party, stranger, registered-unauthenticated, never-handshaken) x claimed fields x request/response packet type x "
              "named object (own / other party's / stranger's / empty / unknown id) x target client; plus random worlds (casts, owners, "
-             "online sets); observation = return value, response class, objects disclosed (id/secret substring search in everything "
+             "online sets, connections spread over two nodes); two-node matrix: two real SessionManagers (own client registry, executor, "
+             "handlers) over shared storage joined by a BridgeManager on an in-memory broker: sender identity x claimed body "
+             "target_client_id x where the mapping's real target is connected (same node / other node / nowhere) x bridge on/off; "
+             "the second run of every case also blanks the body's target_client_id unless the command is a DNS forward or a "
+             "client-to-client notification; observation = return value, response class, objects disclosed (id/secret substring search in everything "
              "the sender received), semantic diff of mappings/codes/domains, command packets pushed to every fake control connection, "
              "connections closed; compared token-for-token with the model and judged by the theorem's predicate; distinct = distinct "
              "case strings"),
@@ -34,7 +38,9 @@ SPEC = {
         "implementation picks whichever Go's map iteration meets first; the model has a ghost `pick` (theorems quantify over it), the "
         "harness marks such cases `x` and judges them by the predicate only (counted as excluded-point in the distribution)",
         "quota branches (10 active codes, 50 active mappings per client) and expiry of codes/mappings are not modelled; generated worlds stay below them",
-        "cross-node paths (bridgeManager broadcast, handleDNSQueryCrossNode with a connection-state store) are nil in the harness: target offline = refused",
+        "cross-node: the SOCKS5 tunnel-open broadcast (BroadcastTunnelOpen -> every node's handleTunnelOpenBroadcast) is driven through a "
+        "BridgeManager double over an in-memory hub (the broker itself is not the repo's); handleDNSQueryCrossNode (connection-state "
+        "store + TCP cross-node pool) is still nil in the harness: DNS target on another node = refused",
         "handleDefaultCommand (executor nil) is not driven: the server always installs the executor (setupConnectionCodeCommands)",
         "SendNotifyToClient / NotifyClientAck handlers are registered by the harness although no production code registers them yet",
     ],
